@@ -205,6 +205,9 @@ class Hexital:
         indicators = indicator if isinstance(indicator, list) else [indicator]
 
         for valid_indicator in self._validate_indicators(indicators).values():
+            if valid_indicator.name in self._indicators:
+                # Taking the place of an indicator of the same name, whose readings (and helper series) would be mistaken for its own
+                self._indicators[valid_indicator.name].purge()
             self._indicators[valid_indicator.name] = valid_indicator
 
     def remove_indicator(self, name: str):
